@@ -680,3 +680,11 @@ func (x *Exec) goroutineStates() string {
 	}
 	return strings.Join(d, " ")
 }
+
+// sl returns the backing cells of a slice; a length-only (virtual) slice has none.
+func (x *Exec) sl(s Slice) []Value {
+	if s.virt != nil {
+		x.unsupported("content of a length-only slice (verifVirtualBytes) is used")
+	}
+	return s.a
+}
